@@ -19,6 +19,10 @@ CHECKS = {
   text="Randomised search (rapid) over spec pairs x subsets of the reported differences fed back verbatim as ignore file; exit status <=> non-ignored Breaking entry for txt, -b and json; text/JSON/-b reports compared as multisets; JSON round trip of every difference and exhaustively of every change code.",
   note="DiffCommand.Execute is driven in-process (returned error = non-zero exit). Known finding: -f json always exits 0 (pinned by TestDiffProcessIgnores).",
   tech="property-based testing (rapid): round-trip (report -> ignore file -> report) and differential comparison of output formats"),
+ "C19": dict(
+  text="Randomised search (rapid) over spec trees carrying YAML-ambiguous and hostile scalars (strings, numbers, keys) x spec-emitting command (expand, flatten x3, mixin, generate spec with input spec, init spec) x {JSON, YAML} input x {json, yaml} output x compact/pretty; round-trip / differential oracle on the reloaded documents. Root-cause classes of genuine YAML-dependency defects are listed known findings.",
+  note="Commands are called in-process through their exported Execute/MixinFiles; documents are reloaded with go-swagger's own loader (loads.Spec) and cross-checked with plain yaml.v3; numbers compare by float64 value. Runs whose command output is not repeatable are skipped (C07's subject).",
+  tech="property-based testing (rapid): round-trip and differential (format x format) oracle over generated specs with ambiguous scalars"),
 }
 REF = {k: f"DESIGN.md §2 {k}" for k in CHECKS}
 PENDING = "check under construction in this session (not yet registered); DESIGN.md describes the planned generated-input check"
